@@ -362,12 +362,15 @@ def skeleton_variants(kit, depth, modes):
     return out
 
 
-def run_prefixes(ctx, res, k, which=("panic", "stuck"), modes=None):
-    """returns fails dict like run_parser's; `which` selects the outcomes that belong to the calling property"""
+def run_prefixes(ctx, res, k, which=("panic", "stuck"), modes=None, depth=None):
+    """returns fails dict like run_parser's; `which` selects the outcomes that belong to the calling property.
+    k = number of symbolic tokens an `insert` variant inserts; depth = nesting depth of the statement skeletons"""
     kit = ParserKit()
     if modes is None:
         modes = ("trunc", "subst") if k <= 1 else ("trunc", "subst", "insert")
-    prefixes = skeleton_variants(kit, 1 if k <= 1 else 2, modes)
+    if depth is None:
+        depth = 1 if k <= 1 else 2
+    prefixes = skeleton_variants(kit, depth, modes)
     fails = {}
     maxsteps = [0]
 
@@ -391,7 +394,8 @@ def run_prefixes(ctx, res, k, which=("panic", "stuck"), modes=None):
     res.merge_stats(st)
     ctx.log(f"skeleton variants {modes}: {len(prefixes)} variants: {st.get('paths', 0)} paths ok={st.get('ok', 0)} panic={st.get('panic', 0)} "
             f"stuck={st.get('stuck', 0)} violation={st.get('violation', 0)} unsupported={st.get('unsupported', 0)} wall={st.get('wall', 0):.1f}s")
-    res.bounds["skeleton_variants"] = len(prefixes)
+    res.bounds["skeleton_variants"] = res.bounds.get("skeleton_variants", 0) + len(prefixes)
+    res.bounds.setdefault("skeleton_variant_plan", []).append({"modes": list(modes), "skeleton_depth": depth, "inserted_symbolic_tokens": k if "insert" in modes else 0, "variants": len(prefixes)})
     return kit, fails
 
 
@@ -442,8 +446,15 @@ def run(ctx):
     N = int(os.environ.get("VERIF_C01_N", N))
     NC = int(os.environ.get("VERIF_C01_NC", NC))
     run_parser(ctx, res, N, NC, POFF=() if ctx.quick() else (62, 63))
-    kitp, pf = run_prefixes(ctx, res, int(os.environ.get("VERIF_C01_K", 1 if ctx.quick() else 2)), modes=("trunc",) if ctx.quick() else None)
-    triage_failures(ctx, res, kitp, pf)
+    if ctx.quick():
+        plans = [(1, ("trunc",), 1)]
+    else:
+        # thorough: every prefix and every one-token substitution of the depth-2 skeletons, one arbitrary token inserted at every
+        # position of the depth-1 skeletons (two inserted tokens at depth 2 were measured at about 7 h and dropped)
+        plans = [(1, ("trunc", "subst"), 2), (int(os.environ.get("VERIF_C01_K", 1)), ("insert",), 1)]
+    for k, modes, depth in plans:
+        kitp, pf = run_prefixes(ctx, res, k, modes=modes, depth=depth)
+        triage_failures(ctx, res, kitp, pf)
     run_lexer(ctx, res)
     res.exhaustive = not res.inconclusive
     res.stubs += ["Vec/slice/Option/Result/iterators/Cell/mem::replace (vf/models.py)", "format!/fmt::Arguments opaque",
